@@ -59,8 +59,17 @@ Fixpoint replace_nth {A} (l : list A) (i : nat) (x : A) : list A :=
   | y :: r, S j => y :: replace_nth r j x
   end.
 
-Definition req_chm (r : request) : res chm :=
-  match r with RUpdate c => Ok c | _ => Err EOther end.     (* `assert isinstance(bwd_request, Update)` *)
+(* `assert isinstance(bwd_request, Update)`; a backward request the model does not predict stays unpredicted *)
+Definition req_chm (r : request) : res (option chm) :=
+  match r with RUpdate c => Ok (Some c) | RJunk => Ok None | _ => Err EOther end.
+Definition opt_prefix (p : path) (c : option chm) : option chm := option_map (cprefix p) c.
+Fixpoint opt_concat (l : list (option chm)) : option chm :=
+  match l with
+  | [] => Some []
+  | Some c :: r => option_map (app c) (opt_concat r)
+  | None :: _ => None
+  end.
+Definition req_of (c : option chm) : request := match c with Some c => RUpdate c | None => RJunk end.
 
 (* the scan loop of an edit: step i old_subtrace carry = (new subtrace, weight, bwd, carry', y) *)
 Fixpoint scanE (step : nat -> trace -> val -> res (trace * Z * request * val * val))
@@ -119,8 +128,8 @@ Fixpoint edit (g : gf) (k : key) (t : trace) (r : request) (a : list val) (tg : 
               let '(v, subs, w, bw) := x in
               Ok (TStatic a v subs, w,
                   match r with
-                  | RUpdate _ => match mapM (fun ab => do c <- req_chm (snd ab); Ok (cprefix (map KS (fst ab)) c)) bw with
-                                 | Ok cs => RUpdate (concat cs)
+                  | RUpdate _ => match mapM (fun ab => do c <- req_chm (snd ab); Ok (opt_prefix (map KS (fst ab)) c)) bw with
+                                 | Ok cs => req_of (opt_concat cs)
                                  | Err _ => RJunk
                                  end
                   | _ => RStatic bw
@@ -134,9 +143,11 @@ Fixpoint edit (g : gf) (k : key) (t : trace) (r : request) (a : list val) (tg : 
       | TVmap olds _ =>
           match r with
           | RUpdate c =>
+              (* jax.vmap over (sub_keys, idx_array, trace.inner, argdiffs): the new arguments must have the trace's length *)
+              if negb (match vmap_len axes a with Some n => Nat.eqb n (length olds) | None => false end) then Err EType else
               do xs <- mapiM (fun i told => edit g' (fold_in k (N.of_nat i)) told (RUpdate (csub c (KI i))) (slice_args axes a i) tg) 0%nat olds;
-              do cs <- mapiM (fun i x => do c' <- req_chm (snd x); Ok (cprefix [KI i] c')) 0%nat xs;
-              Ok (TVmap (map (fun x => fst (fst x)) xs) a, zsum (map (fun x => snd (fst x)) xs), RUpdate (concat cs))
+              do cs <- mapiM (fun i x => do c' <- req_chm (snd x); Ok (opt_prefix [KI i] c')) 0%nat xs;
+              Ok (TVmap (map (fun x => fst (fst x)) xs) a, zsum (map (fun x => snd (fst x)) xs), req_of (opt_concat cs))
           | RIndex idx r' =>
               if tags_nochange tg then
                 if (0 <=? idx) && (idx <? Z.of_nat (length olds)) then
@@ -159,6 +170,8 @@ Fixpoint edit (g : gf) (k : key) (t : trace) (r : request) (a : list val) (tg : 
       | TScan olds _ _ _, [carry; xs] =>
           match r with
           | RUpdate _ | RRegen _ =>
+              (* lax.scan over (trace.inner, scanned_in): same length *)
+              if negb (match scan_len n xs with Some m => Nat.eqb m (length olds) | None => false end) then Err EType else
               do rr <- scanE (fun i told c =>
                                 do x <- edit g' (fold_in k (N.of_nat i)) told
                                              (match r with RUpdate c0 => RUpdate (csub c0 (KI i)) | _ => r end)
@@ -169,8 +182,8 @@ Fixpoint edit (g : gf) (k : key) (t : trace) (r : request) (a : list val) (tg : 
               let '(xs', cf, ys) := rr in
               let ts := map (fun x => fst (fst x)) xs' in
               do bw <- match r with
-                       | RUpdate _ => do cs <- mapiM (fun i x => do c' <- req_chm (snd x); Ok (cprefix [KI i] c')) 0%nat xs';
-                                      Ok (RUpdate (concat cs))
+                       | RUpdate _ => do cs <- mapiM (fun i x => do c' <- req_chm (snd x); Ok (opt_prefix [KI i] c')) 0%nat xs';
+                                      Ok (req_of (opt_concat cs))
                        | _ => Ok (RVector (map snd xs'))
                        end;
               Ok (TScan ts a (VT [cf; stack_vals ys]) (zsum (map t_score ts)), zsum (map (fun x => snd (fst x)) xs'), bw)
@@ -213,7 +226,7 @@ Fixpoint edit (g : gf) (k : key) (t : trace) (r : request) (a : list val) (tg : 
                         | false, false => 0
                         | true, true => w
                         end in
-              Ok (TMask t' post a, fw, RUpdate (cmask post bc))
+              Ok (TMask t' post a, fw, req_of (option_map (cmask post) bc))
           | _ => Err EOther
           end
       | _, _, _ => Err EType
